@@ -5,7 +5,7 @@ Fault injection on the source tree.  ref/mutate.py holds an independent reading 
 if that reference checker says it breaks exactly the intended rule.  The system under test is the real generator
 binary (hook H1: WOWM_VERIF_WORKSPACE) run on scratch copies of the repository.
 """
-import collections, concurrent.futures, json, os, re, shutil, subprocess, threading, time
+import collections, concurrent.futures, json, os, re, subprocess, threading, time
 from lib import common, gen
 from ref import mutate
 
@@ -259,6 +259,7 @@ def run(tier, replay=None):
     # ---- mutants
     per_rule = collections.defaultdict(collections.Counter)
     per_variant = collections.defaultdict(collections.Counter)
+    demo_written = set()
     pairs_seen = set()
     late_outputs = collections.Counter()
     samples_by_rule = {}
@@ -288,6 +289,15 @@ def run(tier, replay=None):
             chk.count(r)
             if r == 'known':
                 chk.distinct.add((m['rule'], m['file'], m['site']))
+                k = common.match_known(chk.known, obs)
+                if k is not None and k['id'] not in demo_written and not replay:
+                    # one replayable demonstration per recorded defect (known findings get no replay file otherwise)
+                    demo_written.add(k['id'])
+                    with open(os.path.join(common.REPLAYS, 'C16', f'known-{k["id"]}.json'), 'w') as f:
+                        json.dump({'property': 'C16', 'tier': tier, 'seed': common.seed(), 'finding': k['id'], 'observation': obs, 'mutant': m,
+                                   'expected_exit': STATUS[m['rule']][0], 'observed_exit': res['exit'], 'stderr': res['stderr'][:3000],
+                                   'mutation': diff_of(m), 'reference_checker': m.get('ref_violations'),
+                                   'how': 'python3 check.py C16 --replay <this file>'}, f, indent=1, default=str)
     chk.extra['mutants_per_rule'] = {r: {'status': STATUS[r][0], 'executed': sum(c.values()), **dict(c)} for r, c in per_rule.items()}
     chk.extra['outcomes_per_rule_and_variant'] = {k: dict(c) for k, c in sorted(per_variant.items())}
     chk.extra['rule_site_class_pairs'] = len(pairs_seen)
